@@ -44,9 +44,9 @@ func init() {
 
 func c10Count(x *core.Ctx) int {
 	if x.Quick() {
-		return 1250 // per part; 4 parts = 5k cases, x4 replicas
+		return 2500 // per part; 4 parts = 10k cases, x4 replicas
 	}
-	return 19000
+	return 40000
 }
 
 // c10Case builds case idx of a part: a pure function of (seed, part, idx).
